@@ -80,8 +80,9 @@ func Parse(obj types.Object, opts *ParseOpts, localOpts LocalOpts) (*Definition,
 
 	for i := 0; i < sig.Params().Len(); i++ {
 		arg := Arg{
-			Name: sig.Params().At(i).Name(),
-			Type: xtype.TypeOf(sig.Params().At(i).Type()),
+			Name:     sig.Params().At(i).Name(),
+			Type:     xtype.TypeOf(sig.Params().At(i).Type()),
+			Variadic: sig.Variadic() && i == sig.Params().Len()-1,
 		}
 
 		switch {
